@@ -88,6 +88,26 @@ theorem range_add_map {α : Type} (b m : Nat) (f : Nat → α) :
   rw [List.range_add, List.map_append, List.map_map]
   rfl
 
+def Pc.isRet : Pc → Bool
+  | .kRet _ _ _ => true
+  | _ => false
+
+theorem notRet_of {p : Pc} (h : p.isRet = false) : ∀ b e m, p ≠ .kRet b e m := by
+  intro b e m hh; subst hh; simp [Pc.isRet] at h
+
+theorem isRet_startPieces (pe e : Nat) : (startPieces pe e).isRet = false := by
+  unfold startPieces; split <;> rfl
+theorem isRet_nextWake (sv b pe e j : Nat) : (nextWake sv b pe e j).isRet = false := by
+  unfold nextWake; split
+  · rfl
+  · exact isRet_startPieces _ _
+theorem isRet_nextStore (sv b pe e j : Nat) : (nextStore sv b pe e j).isRet = false := by
+  unfold nextStore; split <;> rfl
+theorem isRet_kLoop (b e j : Nat) : (kLoop b e j).isRet = false := by
+  unfold kLoop; split <;> rfl
+theorem isRet_waitSlow (b e j v : Nat) : (waitSlow b e j v).isRet = false := by
+  unfold waitSlow; split <;> rfl
+
 theorem got_step {c : Cfg} {s s' : State} {a : Nat} (M : Main s) (h : UStep c s s' a)
     (hk : s.clearing = false) (hk' : s'.clearing = false) :
     (∀ t, s'.got t = (List.range (base s' t)).map (fun i => (i, s'.item i))) ∧ (∀ t, base s' t ≤ s'.cur t) := by
@@ -128,6 +148,92 @@ theorem got_step {c : Cfg} {s s' : State} {a : Nat} (M : Main s) (h : UStep c s 
     rcases pc_other M h t hta with e | ⟨b, e, j, q1, q2⟩
     · exact keep t e h2 h3
     · exact keep2 t (by rw [q1]; intros; simp) (by rw [q2]; intros; simp) h2 h3
-  sorry
+  have T := M.tinv a
+  -- the generic actor case: neither the old nor the new program point is `kRet`
+  have actor : (s.pc a).isRet = false → (s'.pc a).isRet = false → s'.cur a = s.cur a → s'.got a = s.got a →
+      (∀ t, t ≠ a → s'.cur t = s.cur t) → (∀ t, t ≠ a → s'.got t = s.got t) →
+      ∀ t, s'.got t = (List.range (base s' t)).map (fun i => (i, s'.item i)) ∧ base s' t ≤ s'.cur t := by
+    intro h0 h1 h2 h3 h4 h5 t
+    by_cases hta : t = a
+    · subst hta; exact keep2 t (notRet_of h0) (notRet_of h1) h2 h3
+    · exact other t hta (h4 t hta) (h5 t hta)
+  suffices hh : ∀ t, s'.got t = (List.range (base s' t)).map (fun i => (i, s'.item i)) ∧ base s' t ≤ s'.cur t from
+    ⟨fun t => (hh t).1, fun t => (hh t).2⟩
+  cases h with
+  | kAcq _ b e m hp =>
+    rw [hp] at T
+    obtain ⟨t1, t2, t3, t4⟩ := T
+    intro t
+    by_cases hta : t = a
+    · subst hta
+      have hb' : base { s with cur := upd s.cur t (b + m), hb := s.hb.fence t ordAcqFence, pc := upd s.pc t (.kRet b e m) } t = b := by
+        simp [base]
+      have hb : base s t = b := by simp [base, hp, t1]
+      rw [hb']
+      refine ⟨?_, by simp⟩
+      show s.got t = _
+      rw [M.got t, hb]
+    · exact other t hta (upd_other _ _ hta) rfl
+  | ret _ b e m hp =>
+    rw [hp] at T
+    obtain ⟨t1, t2, t3⟩ := T
+    intro t
+    by_cases hta : t = a
+    · subst hta
+      have hb' : base { s with got := upd s.got t (s.got t ++ readRange s b m), pc := upd s.pc t .idle } t = b + m := by
+        simp [base, t1]
+      have hb : base s t = b := by simp [base, hp]
+      rw [hb']
+      refine ⟨?_, by show b + m ≤ s.cur t; omega⟩
+      show upd s.got t (s.got t ++ readRange s b m) t = (List.range (b + m)).map (fun i => (i, s.item i))
+      rw [upd_same, M.got t, hb, range_add_map]
+      congr 1
+      unfold readRange
+      apply List.map_congr_left
+      intro k hk
+      have hk' := List.mem_range.mp hk
+      have := (M.pub (b + k) (M.cons t (b + k) (by omega)).1).2.1
+      rw [this]
+    · exact other t hta rfl (upd_other _ _ hta)
+  | subscribe _ hp hkk =>
+    intro t
+    by_cases hta : t = a
+    · subst hta
+      have hb' : base { s with cur := upd s.cur t 0, got := upd s.got t [] } t = 0 := by
+        simp [base, hp]
+      rw [hb']
+      exact ⟨by simp, by simp⟩
+    · exact other t hta (upd_other _ _ hta) (upd_other _ _ hta)
+  | rSt _ j hp => rw [hp] at T; exact absurd T (by simp [TInv])
+  | rNext _ hp => rw [hp] at T; exact absurd T (by simp [TInv])
+  | clear _ hkk hq => cases hk'
+  | pAdd _ n hp => exact actor (by rw [hp]; rfl) (by simp only [upd_same]; exact isRet_startPieces _ _) rfl rfl (fun _ _ => rfl) (fun _ _ => rfl)
+  | pFill _ b e vals hp hl => exact actor (by rw [hp]; rfl) (by simp only [upd_same]; rfl) rfl rfl (fun _ _ => rfl) (fun _ _ => rfl)
+  | pRel _ b pe e hp => exact actor (by rw [hp]; rfl) (by simp only [upd_same]; rfl) rfl rfl (fun _ _ => rfl) (fun _ _ => rfl)
+  | wSt _ sv b pe e j hp => exact actor (by rw [hp]; rfl) (by simp only [upd_same]; exact isRet_nextStore _ _ _ _ _) rfl rfl (fun _ _ => rfl) (fun _ _ => rfl)
+  | wSc _ sv b pe e hp => exact actor (by rw [hp]; rfl) (by simp only [upd_same]; rfl) rfl rfl (fun _ _ => rfl) (fun _ _ => rfl)
+  | wLd _ sv b pe e j hp =>
+    exact actor (by rw [hp]; rfl) (by simp only [upd_same]; split; exact isRet_nextWake _ _ _ _ _; rfl) rfl rfl (fun _ _ => rfl) (fun _ _ => rfl)
+  | wCasOk _ sv b pe e j v hp hv => exact actor (by rw [hp]; rfl) (by simp only [upd_same]; rfl) rfl rfl (fun _ _ => rfl) (fun _ _ => rfl)
+  | wCasFail _ sv b pe e j v hp => exact actor (by rw [hp]; rfl) (by simp only [upd_same]; rfl) rfl rfl (fun _ _ => rfl) (fun _ _ => rfl)
+  | wWake _ sv b pe e j hp => exact actor (by rw [hp]; rfl) (by simp only [upd_same]; exact isRet_nextWake _ _ _ _ _) rfl rfl (fun _ _ => rfl) (fun _ _ => rfl)
+  | cLd _ hp => exact actor (by rw [hp]; rfl) (by simp only [upd_same]; rfl) rfl rfl (fun _ _ => rfl) (fun _ _ => rfl)
+  | kClosed _ b e j hp =>
+    exact actor (by rw [hp]; rfl) (by simp only [upd_same]; split <;> rfl) rfl rfl (fun _ _ => rfl) (fun _ _ => rfl)
+  | kPub _ b e j hp =>
+    exact actor (by rw [hp]; rfl) (by simp only [upd_same]; split; exact isRet_kLoop _ _ _; rfl) rfl rfl (fun _ _ => rfl) (fun _ _ => rfl)
+  | kWait _ b e j hp =>
+    exact actor (by rw [hp]; rfl) (by simp only [upd_same]; split; exact isRet_kLoop _ _ _; exact isRet_waitSlow _ _ _ _) rfl rfl (fun _ _ => rfl) (fun _ _ => rfl)
+  | kCasOk _ b e j v hp hv => exact actor (by rw [hp]; rfl) (by simp only [upd_same]; rfl) rfl rfl (fun _ _ => rfl) (fun _ _ => rfl)
+  | kCasFail _ b e j v hp => exact actor (by rw [hp]; rfl) (by simp only [upd_same]; rfl) rfl rfl (fun _ _ => rfl) (fun _ _ => rfl)
+  | kFwaitSleep _ b e j v hp hv => exact actor (by rw [hp]; rfl) (by simp only [upd_same]; rfl) rfl rfl (fun _ _ => rfl) (fun _ _ => rfl)
+  | kFwaitAgain _ b e j v hp hv => exact actor (by rw [hp]; rfl) (by simp only [upd_same]; rfl) rfl rfl (fun _ _ => rfl) (fun _ _ => rfl)
+  | kWoke _ b e j hp => exact actor (by rw [hp]; rfl) (by simp only [upd_same]; rfl) rfl rfl (fun _ _ => rfl) (fun _ _ => rfl)
+  | kReload _ b e j hp =>
+    exact actor (by rw [hp]; rfl) (by simp only [upd_same]; split; exact isRet_waitSlow _ _ _ _; exact isRet_kLoop _ _ _) rfl rfl (fun _ _ => rfl) (fun _ _ => rfl)
+  | publish _ n hp hc hkk => exact actor (by rw [hp]; rfl) (by simp only [upd_same]; rfl) rfl rfl (fun _ _ => rfl) (fun _ _ => rfl)
+  | close _ hp hkk hq => exact actor (by rw [hp]; rfl) (by simp only [upd_same]; rfl) rfl rfl (fun _ _ => rfl) (fun _ _ => rfl)
+  | consume _ n hp hkk => exact actor (by rw [hp]; rfl) (by simp only [upd_same]; exact isRet_kLoop _ _ _) rfl rfl (fun _ _ => rfl) (fun _ _ => rfl)
+  | spuriousWake _ b e j hp => exact actor (by rw [hp]; rfl) (by simp only [upd_same]; rfl) rfl rfl (fun _ _ => rfl) (fun _ _ => rfl)
 
 end Babylon.Topic
